@@ -20,14 +20,14 @@ use std::{
     process::{Command, Stdio},
 };
 
-const PATTERN: &str = "{h({l})} {m}{n}{h(<{h({l})}>)}|{h({l}{m}):.4}|{n}";
+const PATTERN: &str = "{h({l})} {m}{n}{h(<{h({l})}>)}|{h({l}{m}):.4}|{h({l}):<7}|{h({l}):>7}|{n}";
 const LEVELS: [Level; 5] = [Level::Error, Level::Warn, Level::Info, Level::Debug, Level::Trace];
 
 fn plain() -> String {
     let mut s = String::new();
     for l in LEVELS {
         let cut: String = format!("{}msg-{}", l, l).chars().take(4).collect();
-        s.push_str(&format!("{} msg-{}\n<{}>|{}|\n", l, l, l, cut));
+        s.push_str(&format!("{} msg-{}\n<{}>|{}|{:<7}|{:>7}|\n", l, l, l, cut, l.to_string(), l.to_string()));
     }
     s
 }
@@ -58,7 +58,10 @@ pub fn child(args: &[String]) -> i32 {
             let dir = std::env::temp_dir().join(format!("c18-{}", std::process::id()));
             let _ = std::fs::create_dir_all(&dir);
             let path = dir.join("c.yaml");
-            let mut y = format!("appenders:\n  con:\n    kind: console\n    target: {}\n    encoder:\n      pattern: \"{}\"\n", target, PATTERN);
+            let mut y = format!("appenders:\n  con:\n    kind: console\n    encoder:\n      pattern: \"{}\"\n", PATTERN);
+            if build != "file-notarget" {
+                y.push_str(&format!("    target: {}\n", target));
+            }
             if tty_only != "absent" {
                 y.push_str(&format!("    tty_only: {}\n", tty_only == "1"));
             }
@@ -435,7 +438,11 @@ pub fn cells() -> Vec<Cell> {
             for clicolor_force in vals {
                 for target in ["stdout", "stderr"] {
                     for target_is_tty in [true, false] {
-                        for (tty_only, build) in [("0", "builder"), ("1", "builder"), ("1", "file"), ("absent", "file")] {
+                        for (tty_only, build) in [("0", "builder"), ("1", "builder"), ("1", "file"), ("absent", "file"), ("1", "file-notarget"), ("0", "file-notarget")] {
+                            // without a `target` key the appender writes to stdout
+                            if build == "file-notarget" && target != "stdout" {
+                                continue;
+                            }
                             v.push(Cell { no_color, clicolor, clicolor_force, target, target_is_tty, tty_only, build });
                         }
                     }
